@@ -7,7 +7,7 @@ OBLIGATIONS = ['Yalafi.C06_longest_match', 'Yalafi.C06_no_match', 'Yalafi.C06_sc
 # the documented table of the property statement (README), independent of the code
 DOCUMENTED = {'--': '–', '---': '—', '``': '“', "''": '”', '~': ' ', '\\,': ' ',
               '\\%': '%', '\\&': '&', '\\$': '$', '\\#': '#', '\\_': '_', '\\{': '{', '\\}': '}', '\\\\': ' ', '&': ' '}
-ALPHA = ['a', 'B', ' ', '\n', '.', ',', '-', '`', "'", '~', '\\,', '\\%', '\\&', '\\_', '\\{', '\\}', '\\$', '\\#',
+ALPHA = ['\\\\', '&', 'a', 'B', ' ', '\n', '.', ',', '-', '`', "'", '~', '\\,', '\\%', '\\&', '\\_', '\\{', '\\}', '\\$', '\\#',
          '!', '?', '(', ')', '"', 'é', 'ß', '1', ';', ':', '/', '*', '=', '+', '<', '>', '|', '@']
 INERT = [c for c in ALPHA if len(c) == 1 and c not in '-`\'~']
 
@@ -27,14 +27,20 @@ def reference(src):
     return ''.join(out), [p + 1 for p in pos]
 
 def excluded(src):
-    """C05's case: a special sequence on an otherwise blank line; also `\\\\` and `&` eat nothing but interact
-    with following blanks / options — keep only lines with a non-blank inert character"""
+    """C05's case: a special sequence on an otherwise blank line (the line is tokenised left to right by longest
+    match, as the property states); `\\\\` and `&` eat nothing but interact with following blanks / options"""
+    keys = sorted(DOCUMENTED, key=lambda k: -len(k))
     for line in src.split('\n'):
-        has_special = any(k in line for k in DOCUMENTED)
-        rest = line
-        for k in sorted(DOCUMENTED, key=lambda k: -len(k)):
-            rest = rest.replace(k, '')
-        if has_special and not rest.strip():
+        i, has_special, inert = 0, False, False
+        while i < len(line):
+            for k in keys:
+                if line.startswith(k, i):
+                    has_special = True; i += len(k); break
+            else:
+                if not line[i].isspace():
+                    inert = True
+                i += 1
+        if has_special and not inert:
             return True
     return False
 
@@ -71,7 +77,7 @@ def gen(ctx):
         srcs.add(''.join(rng.choice(INERT + ['a', 'b', ' ', 'c']) for _ in range(rng.randint(1, 80))))
     out = []
     for s in sorted(srcs):
-        if '\\\\' in s or excluded(s):
+        if excluded(s):
             continue
         # a backslash must belong to one of the documented sequences
         ok = True
@@ -83,7 +89,7 @@ def gen(ctx):
                 i += 2
             else:
                 i += 1
-        if ok and not any(ch in s for ch in '$#&{}%_^"') or ok and all(s[j - 1] == '\\' for j, ch in enumerate(s) if ch in '$#&{}%_' and j > 0) and not any(ch in s for ch in '^"') and not (s[:1] in '$#&{}%_'):
+        if ok and not any(ch in s for ch in '$#{}%_^"') or ok and all(s[j - 1] == '\\' and (j < 2 or s[j - 2] != '\\' or s[j - 3:j - 1] == '\\\\') for j, ch in enumerate(s) if ch in '$#{}%_' and j > 0) and not any(ch in s for ch in '^"') and not (s[:1] in '$#{}%_'):
             out.append(s)
     return out
 
